@@ -249,8 +249,9 @@ def cases(ctx):
     for i in range(per):
         rnd = ctx.rnd
         k = rnd.randint(1, 6)
-        ast = expr.random_ast(rnd, rnd.randint(1, 5), k)
-        while expr.size(ast) > 30:
+        limit = 30 if ctx.tier == 'quick' else 55
+        ast = expr.random_ast(rnd, rnd.randint(1, 5 if ctx.tier == 'quick' else 6), k)
+        while expr.size(ast) > limit:
             ast = expr.random_ast(rnd, rnd.randint(1, 4), k)
         case = dict(s='B', ast=ast, k=k, vseed='%d.%d' % (ctx.shard, i), nvar=b['nvar'],
                     fam='role' if rnd.random() < 0.7 else 'attr')
